@@ -129,7 +129,7 @@ def body_clauses(o, table):
      dshape, dkind, units, ro, complete, derivs, attrs) = o
     t = table[cls]
     c = {}
-    c['attrs'] = bool(complete)
+    c['attrs'] = bool(complete) and (varr or vshape == [])
     c['vshape'] = vshape == shape + numer + denom
     c['mask'] = (mask[0] == 'S') or (mask[0] == 'A' and mask[2] and mask[1] == shape)
     c['ranks'] = nrank == len(numer) and drank == len(denom) and rank == nrank + drank and item == numer + denom
